@@ -92,7 +92,7 @@ func main() {
 		if strings.HasPrefix(*fn, "arith:") {
 			res = e.verifyArith((*fn)[6:])
 		} else {
-			res = e.verifyFunc(*fn, 4000)
+			res = e.verifyFuncFor(*fn, 4000, *prop)
 		}
 		if res.Error != "" {
 			fmt.Println("ERROR:", res.Error)
@@ -192,7 +192,7 @@ func runProperty(e *Engine, prop, tier, propsFile, evidence, replays, knownFile 
 		if strings.HasPrefix(key, "arith:") {
 			res = e.verifyArith(key[6:])
 		} else {
-			res = e.verifyFunc(key, budget)
+			res = e.verifyFuncFor(key, budget, prop)
 		}
 		for _, l := range res.Lemmas {
 			if !lemmaSeen[l] {
